@@ -249,18 +249,7 @@ theorem closePcsWhere_flags (sel : PConn → Bool) (s : State) :
     · exact ⟨rfl, rfl, rfl⟩
     · split <;> exact ⟨rfl, rfl, rfl⟩
   have e2 : ∀ (x : State) (y : Nat), (closePc x y).muxClosed = x.muxClosed ∧ (closePc x y).closedAt = x.closedAt ∧
-      (closePc x y).cfg = x.cfg := by
-    intro x y; unfold closePc
-    split
-    · exact ⟨rfl, rfl, rfl⟩
-    · split
-      · exact ⟨rfl, rfl, rfl⟩
-      · dsimp only
-        split
-        · obtain ⟨a, b, c⟩ := e1 (closePc1 x y) ‹_›
-          obtain ⟨a', b', c'⟩ := e1 x y
-          exact ⟨a.trans a', b.trans b', c.trans c'⟩
-        · exact e1 x y
+      (closePc x y).cfg = x.cfg := fun x y => e1 x y
   unfold closePcsWhere
   apply foldl_inv (fun x : State => x.muxClosed = s.muxClosed ∧ x.closedAt = s.closedAt ∧ x.cfg = s.cfg) _ _ _ ⟨rfl, rfl, rfl⟩
   intro b a hb
